@@ -281,6 +281,13 @@ func (proof *RangeProof) _computeRootHash() (rootHash []byte, treeEnd bool, err 
 			inners, rinnersq := innersq[0], innersq[1:]
 			innersq = rinnersq
 
+			// The next leaf must be the leftmost leaf of this right sibling: a path
+			// that turns right would skip the leaves to its left, and the skipped
+			// keys would pass as absent.
+			if !inners.isLeftmost() {
+				return nil, false, false, errors.Wrap(ErrInvalidProof, "inner path to the next leaf is not a leftmost path")
+			}
+
 			// Recursively verify inners against remaining leaves.
 			derivedRoot, treeEnd, done, err := COMPUTEHASH(inners, rightmost && rpath.isRightmost())
 			if err != nil {
